@@ -545,6 +545,15 @@ fn corruptions(text: &str, r: &Rec, csv: bool, rng: &mut Rng) -> Vec<(&'static s
     if r.syls.len() > 1 {
         v.push(("missing-syllable", format!("{}{}{}{}{}", r.phrase, d, r.freq, d, r.syls[1..].join(" "))));
     }
+    // white space (not the delimiter) at either end of the phrase field: not trimmed, so it becomes part of the phrase
+    if csv {
+        v.push(("phrase-whitespace", format!("{} ,{},{}", r.phrase, r.freq, syl)));
+        v.push(("phrase-whitespace", format!(" {},{},{}", r.phrase, r.freq, syl)));
+        v.push(("phrase-whitespace", format!("\u{3000}{}\t,{},{}", r.phrase, r.freq, syl)));
+    } else {
+        v.push(("phrase-whitespace", format!("{}\t {} {}", r.phrase, r.freq, syl)));
+        v.push(("phrase-whitespace", format!("\u{a0}{} {} {}", r.phrase, r.freq, syl)));
+    }
     v.push(("quote-in-phrase", format!("{}\"{}{}{}{}{}", r.phrase, r.phrase, d, r.freq, d, syl)));
     v.push(("wrong-delimiter", text.replace(d, if csv { ";" } else { "\t" })));
     v.push(("tone1", format!("{}{}{}{}{}ˉ", r.phrase, d, r.freq, d, r.syls[..r.syls.len() - 1].iter().map(|s| format!("{} ", s)).collect::<String>() + "ㄅㄚ")));
@@ -625,6 +634,9 @@ fn undetected_class(kinds: &[&'static str], phrase: &Option<String>, cfg: Cfg) -
             "no-syllables" => Some("no-syllables"),
             "length-mismatch" => Some("length-mismatch"),
             "empty-phrase" => Some("empty-phrase"),
+            // separators inside the phrase field: accepted only when they sit at its ends (otherwise the frequency is taken
+            // for a syllable and the line is rejected); the phrase is stored with them
+            "phrase-chars" => Some("phrase-whitespace"),
             "no-freq" | "bad-freq" if single && !cfg.keep => Some("word-freq-unchecked"),
             _ => None,
         }
@@ -738,7 +750,8 @@ fn check_source(
         let recs = match read_dump(text, csvd) {
             Ok(v) => v,
             Err(e) => {
-                let class = if undetected.iter().any(|(_, k, _)| *k == "empty-phrase" || *k == "no-syllables") { "junk" } else { "new" };
+                let class =
+                    if undetected.iter().any(|(_, k, _)| *k == "empty-phrase" || *k == "no-syllables" || *k == "phrase-chars") { "junk" } else { "new" };
                 if class == "new" {
                     fail(out, "new", format!("dump is not in the documented format: {}", e));
                 }
@@ -810,6 +823,8 @@ fn check_source(
             "F18-tone1"
         } else if undetected.iter().any(|(_, k, _)| *k == "empty-phrase") {
             "empty-phrase"
+        } else if undetected.iter().any(|(_, k, _)| *k == "phrase-chars") {
+            "phrase-whitespace"
         } else {
             "new"
         };
